@@ -61,4 +61,10 @@ func Run(c *hx.Ctx) {
 			runGS(c, genGS(c, i))
 		}
 	}
+	// last: building the real binary loads the machine, keep it away from the timing-sensitive runs above
+	if (only == "" && c.Thorough()) || only == "rs" {
+		for i := 0; i < 6; i++ {
+			runRS(c, genRS(c, i), i)
+		}
+	}
 }
